@@ -30,6 +30,7 @@ _SF_DICT_CONVERSION_FAILURE = (
 _FEATURE_LIST_NONSCALAR = "Feature lists must be of scalar types"
 _FEATURE_DF_COLUMN_BAD_NAME = "DataFrame column names must be strings. Name '{0}' is of type {1}"
 _DUPLICATE_FEATURE_NAME = "Detected duplicate feature name: '{0}'"
+_RESERVED_FEATURE_NAME = "Feature name '{0}' is already used by a data column of the MetricFrame"
 _TOO_MANY_FEATURE_DIMS = "Feature array has too many dimensions"
 _SAMPLE_PARAMS_NOT_DICT = "Sample parameters must be a dictionary"
 _SAMPLE_PARAM_KEYS_NOT_IN_FUNC_DICT = "Keys in 'sample_params' do not match those in 'metric'"
@@ -258,6 +259,9 @@ class MetricFrame:
             self._cf_names = [x.name_ for x in cf_list]
 
         # Add sensitive and conditional features to all_data
+        for name in self._sf_names + (self._cf_names or []):
+            if name in all_data.columns:
+                raise ValueError(_RESERVED_FEATURE_NAME.format(name))
         for sf in sf_list:
             all_data[sf.name_] = list(sf.raw_feature_)
         if cf_list is not None:
@@ -956,6 +960,9 @@ class MetricFrame:
                 continue
 
             col_name = f"{name}_{param_name}"
+            while col_name in all_data.columns:
+                # every (metric, parameter) pair gets a column of its own
+                col_name = col_name + "_"
             all_data[col_name] = np.asarray(param_value)
             kw_argument_mapping[param_name] = col_name
 
